@@ -595,7 +595,7 @@ Proof.
   { unfold ds0. rewrite ids_app. apply nodup_snoc; assumption. }
   match goal with |- context [let '(ds1, o1) := ?X in _] => remember X as x1 eqn:E1 end.
   assert (Rwl now ds0 (fst x1)) as H1.
-  { subst x1. destruct (negb fixed && negb (is_ok (c_kind (fc_base c)) (s_raw (f_st f)))).
+  { subst x1. destruct (negb fixed && s_has_cr (f_st f) && negb (is_ok (c_kind (fc_base c)) (s_raw (f_st f)))).
     - eapply Rl_Rwl. apply trigger_dt_Rl. exact Hnd0.
     - apply Rwl_refl. }
   clear E1. destruct x1 as [ds1 o1]. cbn [fst] in H1.
@@ -883,7 +883,7 @@ Proof.
   unfold do_dt_add.
   match goal with |- context [let '(ds1, o1) := ?X in _] => remember X as x1 eqn:E1 end.
   assert (Forall trig_out (snd x1)) as H1.
-  { subst x1. destruct (negb fixed && negb (is_ok (c_kind (fc_base c)) (s_raw (f_st f)))); [apply trigger_dt_outs|constructor]. }
+  { subst x1. destruct (negb fixed && s_has_cr (f_st f) && negb (is_ok (c_kind (fc_base c)) (s_raw (f_st f)))); [apply trigger_dt_outs|constructor]. }
   clear E1. destruct x1 as [ds1 o1]. cbn [snd] in H1.
   match goal with |- context [let '(ds2, o2) := ?X in _] => remember X as x2 eqn:E2 end.
   assert (Forall trig_out (snd x2)) as H2.
@@ -1299,7 +1299,7 @@ Proof.
         * cnt_eval. lia.
       + eexists _, _. split; [reflexivity|]. split; [|auto].
         cnt_eval. destruct (f_paused f); cbv iota; lia.
-    - destruct (negb (is_ok (c_kind (fc_base c)) (s_raw (f_st f)))) eqn:Hnok.
+    - destruct (s_has_cr (f_st f) && negb (is_ok (c_kind (fc_base c)) (s_raw (f_st f)))) eqn:Hnok.
       + case_eq (c5_inwin now dnew); intros Hw; rewrite Hw in Hcan.
         * unfold chain_fuel. rewrite (trigger_dt_leaf _ now (f_paused f) id _ ds0 dnew F0 eq_refl Hcan).
           cbn [d_trigger dnew new_dt d_fixed negb andb app]. replace (0 =? 0) with true by reflexivity.
@@ -1320,4 +1320,120 @@ Proof.
     unfold sane, add_trigger in *. rewrite Forall_forall in *. intros x Hx. apply in_map_iff in Hx.
     destruct Hx as (y & <- & Hy). specialize (Hs2 y Hy).
     destruct ((d_id y =? trig_by) && negb (existsb (Z.eqb id) (d_triggers y))); exact Hs2.
+Qed.
+
+(* ================================================================== Part 5: OnDowntimeTriggered for everything that changes *)
+
+Definition Rto (o : list out) (d d' : dt) : Prop :=
+  d' = d \/ (In (d_id d) (c5_trig_ids o) /\ exists t, d' = set_trig d t).
+Definition Rtol (o : list out) : list dt -> list dt -> Prop := Forall2 (Rto o).
+
+Lemma Rtol_refl o ds : Rtol o ds ds.
+Proof. induction ds; constructor; [left; reflexivity|assumption]. Qed.
+
+Lemma Rto_mono o o' d d' : (forall i, In i (c5_trig_ids o) -> In i (c5_trig_ids o')) -> Rto o d d' -> Rto o' d d'.
+Proof. intros H [->|(Hi & t & ->)]; [left; reflexivity|right; split; [apply H; exact Hi|eauto]]. Qed.
+Lemma Rtol_mono o o' ds ds' : (forall i, In i (c5_trig_ids o) -> In i (c5_trig_ids o')) -> Rtol o ds ds' -> Rtol o' ds ds'.
+Proof. intros H. induction 1; constructor; [eapply Rto_mono; eassumption|assumption]. Qed.
+
+Lemma Rto_trans o a b c : Rto o a b -> Rto o b c -> Rto o a c.
+Proof.
+  intros [->|(Hi & t & ->)] [->|(Hi' & t' & ->)].
+  - left; reflexivity.
+  - right; eauto.
+  - right; eauto.
+  - right. split; [exact Hi|]. exists t'. reflexivity.
+Qed.
+Lemma Rtol_trans o a b c : Rtol o a b -> Rtol o b c -> Rtol o a c.
+Proof.
+  intros H. revert c. induction H; intros c Hc; inversion Hc; subst; constructor.
+  - eapply Rto_trans; eassumption.
+  - apply IHForall2. assumption.
+Qed.
+Lemma Rtol_app o1 o2 a b c : Rtol o1 a b -> Rtol o2 b c -> Rtol (o1 ++ o2) a c.
+Proof.
+  intros H1 H2. apply Rtol_trans with b.
+  - eapply Rtol_mono; [|exact H1]. intros i Hi. rewrite trig_ids_app. apply in_or_app. left. exact Hi.
+  - eapply Rtol_mono; [|exact H2]. intros i Hi. rewrite trig_ids_app. apply in_or_app. right. exact Hi.
+Qed.
+
+Lemma upd_trigger_Rtol id t ds : Rtol [ODtTriggered id] ds (upd_trigger id t ds).
+Proof.
+  unfold upd_trigger. induction ds as [|x ds IH]; cbn [map]; constructor; [|exact IH].
+  destruct (d_id x =? id) eqn:E; [|left; reflexivity].
+  right. split; [cbn; left; lia|]. exists t. reflexivity.
+Qed.
+
+Lemma trigger_dt_Rtol fuel : forall now p id t ds,
+  Rtol (snd (trigger_dt fuel now p id t ds)) ds (fst (trigger_dt fuel now p id t ds)).
+Proof.
+  induction fuel as [|fuel IH]; intros now p id t ds; cbn [trigger_dt]; [apply Rtol_refl|].
+  destruct (find_dt id ds) as [d|]; [|apply Rtol_refl].
+  destruct (dt_can_be_triggered now d); cbn [negb]; [|apply Rtol_refl].
+  set (ds1 := if d_trigger d =? 0 then upd_trigger id t ds else ds).
+  assert (Rtol [ODtTriggered id] ds ds1) as H1.
+  { unfold ds1. destruct (d_trigger d =? 0); [apply upd_trigger_Rtol|apply Rtol_refl]. }
+  match goal with |- context [fold_left ?g ?l ?a] =>
+    assert (Rtol (snd (fold_left g l a)) ds1 (fst (fold_left g l a))) as H2 end.
+  { apply fold_left_inv with (Q := fun acc => Rtol (snd acc) ds1 (fst acc)); [apply Rtol_refl|].
+    intros [dsa oa] cid _ Ha. cbn [fst snd] in Ha. pose proof (IH now p cid t dsa) as Hi.
+    destruct (trigger_dt fuel now p cid t dsa) as [dsb ob]. cbn [fst snd] in *. eapply Rtol_app; eassumption. }
+  match goal with |- context [fold_left ?g ?l ?a] => destruct (fold_left g l a) as [ds2 o2] end.
+  cbn [fst snd] in *.
+  apply Rtol_trans with ds1.
+  - eapply Rtol_mono; [|exact H1]. intros i Hi. rewrite !trig_ids_app. apply in_or_app. right. apply in_or_app. right. exact Hi.
+  - eapply Rtol_mono; [|exact H2]. intros i Hi. rewrite trig_ids_app. apply in_or_app. left. exact Hi.
+Qed.
+
+Lemma trigger_all_Rtol now p t ds : Rtol (snd (trigger_all now p t ds)) ds (fst (trigger_all now p t ds)).
+Proof.
+  unfold trigger_all.
+  apply fold_left_inv with (Q := fun acc => Rtol (snd acc) ds (fst acc)); [apply Rtol_refl|].
+  intros [dsa oa] id _ Ha. cbn [fst snd] in Ha.
+  pose proof (trigger_dt_Rtol (chain_fuel dsa) now p id t dsa) as Hi.
+  destruct (trigger_dt (chain_fuel dsa) now p id t dsa) as [dsb ob]. cbn [fst snd] in *. eapply Rtol_app; eassumption.
+Qed.
+
+Lemma start_timer_Rtol now f :
+  Rtol (snd (do_dt_start_timer now f)) (f_dts f) (f_dts (fst (do_dt_start_timer now f))).
+Proof.
+  unfold do_dt_start_timer.
+  match goal with |- context [fold_left ?g ?l ?a] =>
+    assert (Rtol (snd (fold_left g l a)) (f_dts f) (fst (fold_left g l a))) as H end.
+  { apply fold_left_inv with (Q := fun acc => Rtol (snd acc) (f_dts f) (fst acc)); [apply Rtol_refl|].
+    intros [dsa oa] id _ Ha. cbn [fst snd] in Ha.
+    destruct (find_dt id dsa) as [d|]; [|exact Ha].
+    destruct (dt_can_be_triggered now d && d_fixed d); [|exact Ha].
+    pose proof (trigger_dt_Rtol (chain_fuel dsa) now (f_paused f) id (Z.max (d_start d) (d_entry d)) dsa) as Hi.
+    destruct (trigger_dt (chain_fuel dsa) now (f_paused f) id (Z.max (d_start d) (d_entry d)) dsa) as [dsb ob].
+    cbn [fst snd] in *. eapply Rtol_app; [exact Ha|].
+    eapply Rtol_mono; [|exact Hi]. intros i Hi'. rewrite trig_ids_app. apply in_or_app. right. exact Hi'. }
+  match goal with |- context [fold_left ?g ?l ?a] => destruct (fold_left g l a) as [ds o] end.
+  exact H.
+Qed.
+
+(* from Rtol (up to a map that keeps id and trigger) to the executable check *)
+Lemma Rtol_trigev o pre0 pre post :
+  NoDup (ids pre0) ->
+  (forall i, c5_trig_of i pre = c5_trig_of i pre0) ->
+  Forall2 (fun d d' => d_id d' = d_id d /\ (d_trigger d' = d_trigger d \/ In (d_id d) (c5_trig_ids o))) pre0 post ->
+  forallb (fun d => c5_mem (d_id d) (c5_trig_ids o)) (c5_newly pre post) = true.
+Proof.
+  intros Hnd Hext HF. apply forallb_forall. intros d' Hin. unfold c5_newly in Hin. apply filter_In in Hin.
+  destruct Hin as [Hin Hp]. apply andb_prop in Hp. destruct Hp as [Hp1 Hp2].
+  assert (forall l l', Forall2 (fun d d' => d_id d' = d_id d /\ (d_trigger d' = d_trigger d \/ In (d_id d) (c5_trig_ids o))) l l' ->
+            incl l pre0 -> In d' l' -> c5_mem (d_id d') (c5_trig_ids o) = true) as H.
+  { induction 1 as [|x x' l l' [Hid Hx] _ IH]; intros Hi Hd; [destruct Hd|].
+    destruct Hd as [<-|Hd]; [|apply IH; [intros y Hy; apply Hi; right; exact Hy|exact Hd]].
+    assert (In x pre0) as Hx0 by (apply Hi; left; reflexivity).
+    rewrite Hext in Hp2. unfold c5_trig_of in Hp2. rewrite Hid, (find_dt_nodup pre0 x Hnd Hx0) in Hp2.
+    destruct Hx as [Hx|Hx]; [lia|]. rewrite Hid. apply mem_In. exact Hx. }
+  apply (H pre0 post HF); [apply incl_refl|exact Hin].
+Qed.
+
+Lemma Rtol_cmp o a b :
+  Rtol o a b -> Forall2 (fun d d' => d_id d' = d_id d /\ (d_trigger d' = d_trigger d \/ In (d_id d) (c5_trig_ids o))) a b.
+Proof.
+  induction 1; constructor; [|assumption].
+  destruct H as [->|(Hi & t & ->)]; split; auto.
 Qed.
